@@ -192,9 +192,13 @@ def extract_manifest(F):
     def hook_new(I_, args, node):
         from .alg import Opaque
 
+        from .interp import IterV as _IterV
+        from .alg import Pt as _Pt
+        import sympy as _sp
+
         c = Opaque("chain", label=I_.deref(args[0]), idx=[lc["isym"] for lc in I_.loop_ctx if lc.get("isym") is not None])
         calls.append(c)
-        return c
+        return _IterV(None, infinite=lambda i: _Pt.atom(_sp.Symbol("g")))
 
     def hook_ff(I_, args, node):
         from .interp import IterV
